@@ -97,12 +97,35 @@ impl<C: BlsSignatureImpl> PublicKey<C> {
         msg: B,
         id: D,
     ) -> BlsResult<TimeCryptCiphertext<C>> {
-        let dst = match scheme {
-            SignatureSchemes::Basic => <C as BlsSignatureBasic>::DST,
-            SignatureSchemes::MessageAugmentation => <C as BlsSignatureMessageAugmentation>::DST,
-            SignatureSchemes::ProofOfPossession => <C as BlsSignaturePop>::SIG_DST,
+        let (u, v, w) = match scheme {
+            SignatureSchemes::Basic => <C as BlsTimeCrypt>::seal(
+                self.0,
+                msg.as_ref(),
+                id.as_ref(),
+                <C as BlsSignatureBasic>::DST,
+            )?,
+            SignatureSchemes::MessageAugmentation => {
+                // The decryption key is this key's signature over `id`, and the
+                // message augmentation scheme signs `pk || id`
+                let mut aug_id = <C as BlsSignatureMessageAugmentation>::pk_bytes(
+                    self.0,
+                    id.as_ref().len(),
+                );
+                aug_id.extend_from_slice(id.as_ref());
+                <C as BlsTimeCrypt>::seal(
+                    self.0,
+                    msg.as_ref(),
+                    aug_id.as_slice(),
+                    <C as BlsSignatureMessageAugmentation>::DST,
+                )?
+            }
+            SignatureSchemes::ProofOfPossession => <C as BlsTimeCrypt>::seal(
+                self.0,
+                msg.as_ref(),
+                id.as_ref(),
+                <C as BlsSignaturePop>::SIG_DST,
+            )?,
         };
-        let (u, v, w) = <C as BlsTimeCrypt>::seal(self.0, msg.as_ref(), id.as_ref(), dst)?;
         Ok(TimeCryptCiphertext { u, v, w, scheme })
     }
 
